@@ -64,6 +64,12 @@ Conforms(pre, e) ==
 
 Divergent == EdgesWhere(LAMBDA nd, e : ~Conforms(nd.pre, e))
 
+\* 2b. reply labelling (C18): a secret the signer returns is the BOLT-3 tree element of the commitment number the
+\* request names - Step says which number that is; e[4] is the index of the returned secret as the harness
+\* recomputed it from the channel seed (-1: no secret in the reply, -2: no element of the tree at all)
+SecMislabel == EdgesWhere(LAMBDA nd, e : e[3] = 1 /\ e[4] # -1 /\
+                 LET o == Step(nd.pre, Alphabet[e[2]], K) IN o.resp.ok /\ o.resp.sec # -1 /\ o.resp.sec # e[4])
+
 \* 3. frame (C10) and restart (C11) observations
 FrameBad   == EdgesWhere(LAMBDA nd, e : e[3] = 0 /\ e[7] # 0)
 \* an edge is charged with a restart inequality only if its source state was restart-equal (r0)
@@ -86,6 +92,7 @@ Report ==
     expanded    |-> Cardinality({i \in DOMAIN Nodes : Nodes[i].x}),
     edges       |-> NEdges,
     divergences |-> SetToSeq({Describe(p) : p \in Divergent}),
+    sec_mislabel |-> SetToSeq({Describe(p) : p \in SecMislabel}),
     frame_bad   |-> SetToSeq({Describe(p) : p \in FrameBad}),
     restart_bad |-> SetToSeq({Describe(p) : p \in RestartBad}),
     muts_bad    |-> SetToSeq({Describe(p) : p \in MutsBad}),
